@@ -75,12 +75,34 @@ class Result:
         self.traces += r.get("traces", 0)
 
 
+class _Guarded:
+    """Runs a case function and turns an exception into a property failure: an in-scope input
+    on which /repo (or the harness) raises is a concrete failing input, never a crash of the
+    check itself."""
+
+    def __init__(self, fn):
+        self.fn = fn
+
+    def __call__(self, spec):
+        try:
+            return self.fn(spec)
+        except Exception as exc:  # noqa: BLE001
+            import traceback
+            tb = traceback.format_exc()
+            where = "sparrowpy" if "/sparrowpy/" in tb else "harness"
+            return {"evaluations": 1, "mismatches": [], "nontrivial": [], "dist": {"exception": 1},
+                    "prop_failures": [{"test": "exception", "exception": type(exc).__name__, "raised_in": where,
+                                       "what": "case raised %s: %s" % (type(exc).__name__, str(exc)[:300]),
+                                       "trace": tb[-1500:], "case": dict(spec) if isinstance(spec, dict) else repr(spec)}]}
+
+
 def run_parallel(fn, specs, workers=None):
     workers = workers or min(16, max(1, len(specs)))
+    g = _Guarded(fn)
     if workers <= 1 or len(specs) <= 1:
-        return [fn(s) for s in specs]
+        return [g(s) for s in specs]
     with cf.ProcessPoolExecutor(max_workers=workers) as ex:
-        return list(ex.map(fn, specs, chunksize=1))
+        return list(ex.map(g, specs, chunksize=1))
 
 
 # --------------------------------------------------------------------------
